@@ -34,18 +34,20 @@ CLAIMS = {
             'several raising functions fires first, and library-raised KeyError / ValueError (unknown switch key, foreign id), rest on the trace agreement'),
     'C03': ('Theorem: in a successful call no (hash|value, node) generator completes twice, for any graph, generator trees, caches and '
             'interference; the exact call log (which functions, order, laziness of switches and cache hits) is compared between the '
-            'Coq machine and the real engine on every generated case, plus direct oracles on the implementation log.',
+            'Coq machine and the real engine on every generated case, plus direct oracles on the implementation log. For CacheColumns the property is refuted by a theorem over the regenerated CachedColumn.evaluate: a request that misses the RAM table runs the hash pass of the requested entry twice (finding F9).',
             'the "exactly the needed functions" half is decided by model/implementation agreement on the call log (a sample) and by oracles'),
     'C04': ('Theorem over ALL histories of calls and clears on any sequence of graphs sharing the caches (rebuilds, variants), with arbitrary '
             'Good-preserving interference: every call returns the value of the cache-free recursive semantics; via the store invariant '
             '"every entry key is a hash whose inverse reading is the stored value" (hash soundness over the regenerated hash makers) and '
-            'the machine/evaluator/spec refinement. Real pipelines with CacheToRam/CacheToDisk are run against the model on generated histories.',
+            'the machine/evaluator/spec refinement. Real pipelines with CacheToRam/CacheToDisk are run against the model on generated histories; request sequences through CacheColumns against the column model.',
             'failing calls included: every call of every history ends with the cache-free value or a user exception and leaves the store within its '
             'invariant (theorem over a store with a ghost write log); keys without numeric leaves (else known finding F3); '
-            'CacheColumns is not in the VM model: decided by oracles against the cache-free pipeline; serializer round trip and real disk trusted'),
+            'CacheColumns has a model of its own (regenerated CachedColumn.evaluate over the RAM table and disk store of the layer, the compiled graph of a column abstracted as a pair of partial functions): '
+            'every history of requests, new processes and foreign entries returns the uncached value or a user exception that leaves the stores untouched, under the assumptions listed with the theorem '
+            '(without the disjointness one it is refuted: finding F11); serializer round trip and real disk trusted'),
     'C05': ('Theorems: the value of every node is the inverse reading of its node hash, for all graphs without Silent arguments and all '
             'interpretations of the user functions (over the regenerated _make_hash bodies); hence equal hashes give equal values across graphs; '
-            'Silent independence exactly; digests exact, Python == exact without numeric leaves. Hash terms of model and engine are compared on every case.',
+            'Silent independence exactly; digests exact, Python == exact without numeric leaves. Refuted for the disk key of a column shard (ApplyHash(tuple, entry hashes) is the node hash of tuple(entry): finding F11, witness over the regenerated CachedColumn.evaluate). Hash terms of model and engine are compared on every case.',
             'pickler/digest injectivity trusted; External markers not modelled; F3 (== on leaves) is a known finding'),
     'C06': ('Theorems: a static hash reads back as a function of the entry id (placeholder = the id, a switch node = look the id up in the stored routing '
             'table) and for every graph of function, constant, identity, product, cache, barrier, hash-by-value, switch and CheckIds edges that function is what '
@@ -55,17 +57,17 @@ CLAIMS = {
             'sub-pipelines that themselves contain Filter / GroupBy / Join / Split edges (a static hash nested in a static hash) are covered by the translated hash '
             'makers and the collision oracle, not by the whole-graph theorem; switch tables are assumed to be dicts (no two ==-equal keys)'),
     'C07': ('Theorems: identity/cache/CheckIds/column/barrier edges are hash-transparent, a switch reports the selected branch hash, Silent '
-            'arguments do not enter the hash (regenerated hash makers). The digests of real pipelines are compared under 12 neutral rewrites and in 3 '
+            'arguments do not enter the hash (regenerated hash makers); a request through a cached column does not depend on the order in which the ids are listed. The digests of real pipelines are compared under 12 neutral rewrites and in 3 '
             'interpreters with different string-hash seeds.',
             'determinism of tarn.pickler across interpreters is observed, not proved; in-process equality of per-connection function objects (GroupBy/Join/Split) is outside the rewrites tested'),
     'C08': ('Theorems: LRU bound for every operation list incl. clear over the regenerated clear(); recency ("the cap most recently touched keys hit") '
             'on an abstract LRU table; shards partition the keys and contain the requested key (regenerated _get_shard arithmetic); a hit requests nothing '
-            'upstream (regenerated CacheEdge.evaluate). MemoryCache op lists, _get_shard and cached pipelines are run against the model.',
+            'upstream (regenerated CacheEdge.evaluate); after a request through a cached column every key of its shard is a RAM hit that runs the hash pass of its entry only (regenerated CachedColumn.evaluate). MemoryCache op lists, _get_shard, cached pipelines and column request sequences are run against the model.',
             'pylru itself is third-party (modelled, compared on op lists); float shard sizes enter as ceil(f*len) computed by the harness; '
             'hits across processes rest on C07'),
     'C11': ('Theorem: a call returns the cache-free value and keeps the store invariant under ANY environment that may change the shared caches '
             'before each of its cache accesses as long as entries stay Good (time-dependent, so every schedule of every number of threads), and its '
-            'own writes are Good (guarantee); lock scopes and per-call eviction tables are regenerated facts. Real threads are run under all 2-thread '
+            'own writes are Good (guarantee); the same for a request through a cached column with interference before every store access (regenerated CachedColumn.evaluate); lock scopes and per-call eviction tables are regenerated facts. Real threads are run under all 2-thread '
             'schedules of bounded length with a lock-checking proxy table.',
             'granularity of switches = user-function calls and cache get/set; pre-emption inside pylru/dict under the lock and tarn lockers not modelled'),
 
